@@ -345,7 +345,7 @@ def _fill_args(W, s):
     W.flavours("sigmas", s, sig, "pr")
     W.flavours("s2sig", s, 0.3 * sig, "pr")
     W.flavours("eps", s, 1.0 + 0.25 * np.add.outer(np.arange(K), np.arange(K)), "p")
-    W.flavours("rcuts", s, 1.6 * sig)
+    W.flavours("rcuts", s, 1.6 * sig * (1.0 + 0.05 * np.triu(np.ones((K, K)), 1)))    # asymmetric cut-off matrix
     W.flavours("ngrids", s, np.array([3, 2] if d == 2 else [2, 3, 2], dtype=np.int64), "p")
     M = 5
     W.flavours("efreq", s, rng.uniform(0.5, 3.0, size=M), "pv")
@@ -403,13 +403,13 @@ def _finish_world(W):
 def build_small(name, dim, tmp, seed):
     W = World(name, dim, tmp, seed)
     rng = W.rng
-    W.scale, W.rdelta, W.qrange = 1.0, 0.25, 4.0
+    W.scale, W.rdelta, W.qrange, W.acut = 1.0, 0.25, 4.0, 0.3
     if dim == 2:
         cfg = {1: dict(n=24, steps=[0, 10, 20, 30, 40], lo=[1.0, -2.0], H=[[6.0, 0], [0, 6.0]]),
-               2: dict(n=20, steps=[0, 1, 2, 4], lo=[0.0, 0.5], H=[[6.0, 0], [1.5, 5.0]])}
+               2: dict(n=20, steps=[0, 1, 2, 4], lo=[0.0, 0.5], H=[[7.0, 0], [1.5, 5.0]], K=3)}
     else:   # target 1: orthogonal box whose bounds are centred on the origin (bounds sum to zero)
         cfg = {1: dict(n=30, steps=[0, 5, 10, 15], lo=[-2.5, -3.0, -2.0], H=[[5.0, 0, 0], [0, 6.0, 0], [0, 0, 4.0]]),
-               2: dict(n=27, steps=[0, 1, 3], lo=[0.5, 0.0, -1.0], H=[[5.0, 0, 0], [1.0, 5.0, 0], [0.5, -1.0, 4.0]])}
+               2: dict(n=27, steps=[0, 1, 3], lo=[0.5, 0.0, -1.0], H=[[5.0, 0, 0], [1.0, 5.0, 0], [0.5, -1.0, 4.0]], K=5)}
     for s, c in cfg.items():
         H = np.array(c["H"])
         lo = np.array(c["lo"])
@@ -421,7 +421,8 @@ def build_small(name, dim, tmp, seed):
             frames.append(lo + frac @ H)
             th = rng.uniform(0, 2 * np.pi, size=n)
             oris.append(np.c_[np.cos(th), np.sin(th)])
-        types = np.array([1] * int(np.ceil(0.6 * n)) + [2] * (n - int(np.ceil(0.6 * n))))
+        K = c.get("K", 2)          # species 1..K, unequal composition (g(r) / S(q) branches unary .. quinary)
+        types = np.sort(np.r_[np.arange(1, K + 1), 1 + (np.arange(n - K) * 7 % (2 * K)) // 2 % K])
         path = os.path.join(W.dir, f"traj{s}.atom")
         _write_dump(path, frames, types, c["steps"], lo, H, cols=(("mux", "muy"), oris) if dim == 2 else None)
         W.S[s] = _read(path, dim)
@@ -435,7 +436,7 @@ def build_small(name, dim, tmp, seed):
 def build_sample(name, dim, tmp, seed):
     W = World(name, dim, tmp, seed)
     W.heavy = True
-    W.rdelta, W.qrange = 0.5, 1.5
+    W.rdelta, W.qrange, W.acut = 0.5, 1.5, 2.0
     if dim == 3:
         W.scale = 1.0
         W.S[1] = _head(_read(os.path.join(SAMPLE, "quarternary.dump"), 3), 3)
@@ -486,8 +487,8 @@ class Handle:
 # state arrays of the analysis objects (owned by the family: only its constructor / setter may change them)
 STATE = {"gr": ["typenumber", "typecount", "rhotype", "ppp"], "sq": ["qvector", "qvalue", "typenumber", "typecount"],
          "boo3d": ["smallqlm", "largeQlm", "ppp"], "boo2d": ["ParticlePhi", "ppp"], "nematic": ["QIJ"],
-         "s2": ["s2_results", "sigmas", "typecount"], "dyn": ["time", "diameters", "a2_cuts"],
-         "logdyn": ["time", "diameters", "a2_cuts"], "hess": ["epsilons", "sigmas", "r_cuts"]}
+         "s2": ["s2_results", "sigmas", "typecount"], "dyn": ["time", "diameters", "a2_cuts", "neighborlists"],
+         "logdyn": ["time", "diameters", "a2_cuts", "neighborlists"], "hess": ["epsilons", "sigmas", "r_cuts"]}
 FAMS = sorted(STATE)
 
 
@@ -1050,7 +1051,7 @@ def _c_dyn(Z, s, v, cls, fam):
     W = Z.W
     dia = {k + 1: float(W.a("sigmas", s)[k, k]) for k in range(W.K[s])}
     if v == 0:
-        o = cls(x_snapshots=W.S[s], dt=0.002, ppp=_ppp(Z, s), diameters=dia, a=0.3)
+        o = cls(x_snapshots=W.S[s], dt=0.002, ppp=_ppp(Z, s), diameters=dia, a=W.acut)
     else:
         o = cls(xu_snapshots=W.S[s], dt=0.002, ppp=np.zeros(W.dim, dtype=int), diameters=dia, a=0.1, cal_type="fast",
                 neighborfile=W.nbr[s], max_neighbors=30)
@@ -1328,22 +1329,25 @@ def validate_world(world, header, records, timeout=3600):
 
 def select_sessions(tier, cases, rng):
     """quick: every call (entry point x target x variant) of every world at least once as the f of an
-    f, g, f schedule - with g the same entry point on the other target / another variant where the
-    specification emitted one, and once more with a seeded random g (small worlds) - plus a seeded sample
-    of the general length-3 words.  thorough: everything TLC emitted."""
+    f, g, f schedule - with g the same entry point on the other target where the specification emitted
+    one, and once more with a seeded random g (generated worlds) - plus a seeded sample of the general
+    length-3 words.  thorough: generated worlds: every emitted f, g, f whose g is a first variant (so all
+    words f, g of length <= 2 over calls x entry points are prefixes) + 5000 general length-3 words per
+    world; sample-trajectory worlds: partner + 3 seeded g per call + 300 general words."""
     chosen = []
     for (mode, w), cs in sorted(cases.items()):
         cs = sorted(cs, key=lambda c: json.dumps(c["word"]))
-        if tier == "thorough":
-            chosen += cs
-            continue
+        heavy = w.startswith("s")
         if mode == "all3":
-            chosen += rng.sample(cs, min(len(cs), 160))
+            k = 160 if tier == "quick" else (300 if heavy else 5000)
+            chosen += rng.sample(cs, min(len(cs), k))
+            continue
+        if tier == "thorough" and not heavy:
+            chosen += [c for c in cs if c["word"][1][2] == 0]
             continue
         byf = {}
         for c in cs:
             byf.setdefault(tuple(c["word"][0]), []).append(c)
-        heavy = w.startswith("s")
         for f, lst in sorted(byf.items()):
             partner = [c for c in lst if c["word"][1][0] == f[0] and tuple(c["word"][1]) != f]
             other = [c for c in partner if c["word"][1][1] != f[1]]
@@ -1351,7 +1355,9 @@ def select_sessions(tier, cases, rng):
             pick = []
             if other or partner:
                 pick.append(rng.choice(other or partner))
-            if rest and (not heavy or not pick):
+            if tier == "thorough":
+                pick += rng.sample(rest, min(3, len(rest)))
+            elif rest and (not heavy or not pick):
                 pick.append(rng.choice(rest))
             if not pick:
                 pick.append(rng.choice(lst))
@@ -1398,6 +1404,7 @@ def build_traces(chosen, results, rep):
         return t.setdefault(d, len(t) + 1)
 
     nsteps = 0
+    slow = {}
     for case, out in zip(chosen, results):
         w = case["w"]
         if "machinery" in out:
@@ -1412,6 +1419,7 @@ def build_traces(chosen, results, rep):
         for i, c in enumerate(out["calls"]):
             nsteps += 1
             call = call_name(c["e"], c["s"], c["v"])
+            slow[(w, call)] = max(slow.get((w, call), 0.0), c["wall"])
             info = {"world": w, "word": case["word"], "steps": case["steps"], "step": i + 1, "call": call}
             d0 = [[j + 1, cls(w, b)] for j, (a, b) in enumerate(zip(prev, c["before"])) if a != b]
             d1 = [[j + 1, cls(w, b)] for j, (a, b) in enumerate(zip(c["before"], c["after"])) if a != b]
@@ -1437,6 +1445,7 @@ def build_traces(chosen, results, rep):
                 rep.violation("A:FileDiffers", call, dict(info, note="output file does not hold the returned value to the written precision"))
                 okA = False
         case["_okA"] = okA
+    rep.chk.extra["slowest_calls_s"] = {f"{k[0]}:{k[1]}": v for k, v in sorted(slow.items(), key=lambda kv: -kv[1])[:12]}
     return traces, index, nsteps
 
 
